@@ -75,6 +75,7 @@ def suffix_circuit():
 
 def all_cases(ctx):
     cs = [(("strip", "suffix-pins"), ("strip", suffix_circuit(), None)), (("strip", "dotted-pins"), ("strip", F.f_bb_dotted()[0][1], None))]
+    cs += [(("strip",) + cid, ("strip", s_, None)) for cid, s_ in F.f_rand_bb(ctx.seed, 10 if ctx.quick else 80)]
     ch = children(ctx)
     nmaps = 3 if ctx.quick else 6
     for pn, p in parents():
@@ -212,7 +213,7 @@ def run(ctx):
         if pspec == "strip":
             spec = c1
             ctx.sample({"case": cid, "circuit": spec})
-            for ign in (None, "CK", ["CK"], ["Q"], ["D", "Q"], ["SCK", "NQ"], ["CK", "SCK", "Q"], ["D"], ["SD", "NQ", "CK"], ["en"], ["d"], ["q", "en"]):
+            for ign in (None, "CK", ["CK"], ["Q"], ["D", "Q"], ["SCK", "NQ"], ["CK", "SCK", "Q"], ["D"], ["SD", "NQ", "CK"], ["en"], ["d"], ["q", "en"], "clk", ["p", "z"], ["y"]):
                 r, e = call(tx.strip_blackboxes, build(spec), ign)
                 det = {"case": cid, "circuit": spec, "ignore_pins": ign}
                 if e is not None:
